@@ -339,7 +339,7 @@ static bool feasible(const State& s, const z3::expr& extra, std::vector<uint64_t
     z3::check_result r = sv.check();
     double dt = now() - t0;
     ST.solver_s += dt;
-    if (getenv("SYMEX_DUMP") && dt > 0.05) { static int nd = 0; if (nd++ < 5) fprintf(stderr, "---- query %.3fs\n%s\n", dt, sv.to_smt2().c_str()); }
+    if (getenv("SYMEX_DUMP") && dt > 0.3) { static int nd = 0; if (nd++ < 5) fprintf(stderr, "---- query %.3fs\n%s\n", dt, sv.to_smt2().c_str()); }
     ST.queries++;
     if (r == z3::unknown) bound("solver returned unknown (timeout " + std::to_string(optQueryTimeoutMs) + " ms)");
     CacheEnt ce;
@@ -1252,14 +1252,14 @@ static void runPath(State s) {
         }
         case Instruction::UIToFP: case Instruction::SIToFP: {
           Val v = get(f, I.getOperand(0));
-          if (v.sym()) bound("symbolic int->float at " + siteOf(s));
+          if (v.sym()) v = conc(v.w, concretize(s, v, "int->float operand"));
           double d = I.getOpcode() == Instruction::UIToFP ? (double)(uint64_t)v.c : (double)sx(v);
           setReg(f, &I, fromDouble(d, widthOf(I.getType())));
           break;
         }
         case Instruction::FPToUI: case Instruction::FPToSI: {
           Val v = get(f, I.getOperand(0));
-          if (v.sym()) bound("symbolic float->int at " + siteOf(s));
+          if (v.sym()) v = conc(v.w, concretize(s, v, "float operand"));
           double d = asDouble(v);
           unsigned dw = widthOf(I.getType());
           setReg(f, &I, conc(dw, I.getOpcode() == Instruction::FPToUI ? (u128)(uint64_t)d : (u128)(__int128)(int64_t)d));
@@ -1267,19 +1267,20 @@ static void runPath(State s) {
         }
         case Instruction::FPExt: case Instruction::FPTrunc: {
           Val v = get(f, I.getOperand(0));
-          if (v.sym()) bound("symbolic float at " + siteOf(s));
+          if (v.sym()) v = conc(v.w, concretize(s, v, "float operand"));
           setReg(f, &I, fromDouble(asDouble(v), widthOf(I.getType())));
           break;
         }
         case Instruction::FNeg: {
           Val v = get(f, I.getOperand(0));
-          if (v.sym()) bound("symbolic float at " + siteOf(s));
+          if (v.sym()) v = conc(v.w, concretize(s, v, "float operand"));
           setReg(f, &I, fromDouble(-asDouble(v), v.w));
           break;
         }
         case Instruction::FAdd: case Instruction::FSub: case Instruction::FMul: case Instruction::FDiv: case Instruction::FRem: {
           Val a = get(f, I.getOperand(0)), b = get(f, I.getOperand(1));
-          if (a.sym() || b.sym()) bound("symbolic float arithmetic at " + siteOf(s));
+          if (a.sym()) a = conc(a.w, concretize(s, a, "float operand"));
+          if (b.sym()) b = conc(b.w, concretize(s, b, "float operand"));
           double x = asDouble(a), y = asDouble(b), r = 0;
           switch (I.getOpcode()) {
             case Instruction::FAdd: r = x + y; break;
@@ -1295,7 +1296,8 @@ static void runPath(State s) {
         case Instruction::FCmp: {
           auto* fc = cast<FCmpInst>(&I);
           Val a = get(f, I.getOperand(0)), b = get(f, I.getOperand(1));
-          if (a.sym() || b.sym()) bound("symbolic float compare at " + siteOf(s));
+          if (a.sym()) a = conc(a.w, concretize(s, a, "float operand"));
+          if (b.sym()) b = conc(b.w, concretize(s, b, "float operand"));
           double x = asDouble(a), y = asDouble(b);
           bool un = std::isnan(x) || std::isnan(y), r = false;
           switch (fc->getPredicate()) {
